@@ -421,7 +421,7 @@ func runScenarioMode(t *testing.T, sc Scenario, freeRun bool) (ex execution) {
 			if i%3 == 0 {
 				topics = append(topics, topicPool[(i+1)%len(topicPool)])
 			}
-			m := newMessage(-1, topics)
+			m := newMessage(-1, topics, i+1 == sc.PrefillBad)
 			w.add(Rec{K: "pubcall", Pub: -1, Ser: serialOf(m)})
 			err := j.Publish(m, aliased(topics))
 			w.add(Rec{K: "pubret", Pub: -1, Ser: serialOf(m), Err: err})
